@@ -446,6 +446,20 @@ func TestDrive(t *testing.T) {
 				ncli++
 			}
 		}
+		rounds := 3000
+		if tier == "thorough" {
+			rounds = 40000
+		}
+		for i := 0; i < 4; i++ {
+			fmt.Fprintln(bw, stopStress(prop, i, rounds/4))
+			dist["stop-stress"]++
+			ncli++
+		}
+		for i := 0; i < 6; i++ {
+			fmt.Fprintln(bw, optionLeak(prop, i, seed))
+			dist["option-goroutines"]++
+			ncli++
+		}
 		for i := 0; i < 3; i++ {
 			if line, ok := cliSignalTwice(prop, i, seed); ok {
 				fmt.Fprintln(bw, line)
